@@ -460,3 +460,43 @@ def discarded_results(fn):
         if not uses:
             out.append((bb, t, "discarded" if is_res else "discarded-through-" + nm.split("::")[-1]))
     return out
+
+
+# ----------------------------------------------------------------------------
+# whole-program (deep) who-may-call
+# ----------------------------------------------------------------------------
+
+
+def deep_extern_callers(prog, last_segments):
+    """in the monomorphic whole-program instance graph (rooted at every non-generic local function,
+    std and libc included): {extern name: sorted caller instance paths}"""
+    g = prog.graph
+    out = {}
+    if g is None:
+        return None
+    nodes = g["nodes"]
+    want = set(last_segments)
+    targets = {i for i, n in enumerate(nodes) if n["foreign"] and n["name"].split("::")[-1] in want}
+    for i, n in enumerate(nodes):
+        for (to, bb, kind, ln, fl) in n["edges"]:
+            if to in targets:
+                out.setdefault(nodes[to]["name"], set()).add(n["path"])
+    return {k: sorted(v) for k, v in out.items()}
+
+
+def deep_census(ctx, rule, last_segments, allowed):
+    """thorough tier: every caller, anywhere in the whole program reachable from the crate, of the
+    given extern functions must be an allowed wrapper (calls hidden behind std generics, closures
+    or trait objects are resolved here, unlike in the crate-only census)"""
+    prog = ctx.program("deep")
+    res = deep_extern_callers(prog, last_segments)
+    if res is None:
+        ctx.ob(rule, "deep-graph", False, "", "whole-program graph missing")
+        return
+    seen = 0
+    for name, callers in sorted(res.items()):
+        for c in callers:
+            seen += 1
+            ok = c in allowed.get(name.split("::")[-1], ())
+            ctx.ob(rule, "deep:%s<-%s" % (name.split("::")[-1], c), ok, "", "whole-program: %s is called by %s (allowed callers: %s)" % (name, c, list(allowed.get(name.split("::")[-1], ()))))
+    return seen
